@@ -333,6 +333,134 @@ Proof.
   destruct (poll_timers sm) as [s2 o2]. exact P.
 Qed.
 
+(* ------------------------------------------------------------------ one context per peer *)
+Definition peers_nodup (s : st) : Prop := NoDup (map c_peer (s_ctxs s)).
+
+Lemma find_ctx_none_notin p l : find_ctx p l = None -> ~ In p (map c_peer l).
+Proof.
+  induction l as [|h t IH]; cbn [find_ctx map]; [intros _ []|].
+  destruct (c_peer h =? p) eqn:E; [discriminate|]. intros H [C|C]; [apply N.eqb_neq in E; contradiction | exact (IH H C)].
+Qed.
+Lemma peers_set_ctx cx l : find_ctx (c_peer cx) l <> None -> map c_peer (set_ctx cx l) = map c_peer l.
+Proof.
+  induction l as [|h t IH]; cbn [find_ctx set_ctx map]; [intros H; contradiction|].
+  destruct (c_peer h =? c_peer cx) eqn:E; cbn [map].
+  - intros _. apply N.eqb_eq in E. rewrite E. reflexivity.
+  - intros H. rewrite IH; [reflexivity | exact H].
+Qed.
+Lemma peers_set_active l k b : map c_peer (set_active l k b) = map c_peer l.
+Proof.
+  unfold set_active. destruct (find_ctx (fst k) l) as [cx|] eqn:F; [|reflexivity].
+  apply peers_set_ctx. rewrite peer_set_act, (find_ctx_peer _ _ _ F), F. discriminate.
+Qed.
+Lemma peers_downgrade_all ex : forall l, map c_peer (fst (downgrade_all l ex)) = map c_peer l.
+Proof.
+  induction ex as [|k ex IH]; intros l; cbn [downgrade_all]; [reflexivity|].
+  specialize (IH (set_active l k false)). destruct (downgrade_all (set_active l k false) ex) as [l' os]. cbn [fst] in *.
+  rewrite IH. apply peers_set_active.
+Qed.
+
+Lemma handle_peers s i : peers_nodup s -> peers_nodup (fst (handle_ev s i)).
+Proof.
+  unfold peers_nodup. intros ND.
+  assert (SET : forall cx, find_ctx (c_peer cx) (s_ctxs s) <> None -> NoDup (map c_peer (set_ctx cx (s_ctxs s))))
+    by (intros cx H; rewrite peers_set_ctx; assumption).
+  destruct i; cbn [handle_ev]; try (cbn [fst]; st_simpl; exact ND).
+  - (* EEst *) unfold on_established. rewrite add_chan_ctxs. destruct (find_ctx p (s_ctxs s)) as [cx|] eqn:F.
+    + destruct (c_sec cx); cbn [fst]; st_simpl; rewrite ?activity_ctxs, ?add_chan_ctxs; [exact ND|].
+      apply SET. cbn [c_peer]. rewrite F. discriminate.
+    + cbn [fst]. rewrite activity_ctxs. st_simpl. rewrite ?add_chan_ctxs, map_app. cbn [map c_peer].
+      apply NoDup_snoc; [exact ND | apply find_ctx_none_notin; exact F].
+  - (* EClosed *) unfold on_closed. st_simpl.
+    set (s1 := match find_ch c (s_chans s) with
+               | Some x => with_chans _ (set_ch (mkCh c 0 (ch_held x)) _) | None => _ end).
+    assert (C1 : s_ctxs s1 = s_ctxs s) by (subst s1; destruct (find_ch c (s_chans s)); reflexivity).
+    rewrite C1. destruct (find_ctx p (s_ctxs s)) as [cx|] eqn:F; [|cbn [fst]; rewrite C1; exact ND].
+    destruct (h_id (c_prim cx) =? c); [destruct (c_sec cx)|]; cbn [fst]; st_simpl.
+    + apply SET. cbn [c_peer]. rewrite F. discriminate.
+    + unfold del_ctx. apply NoDup_map_filter. exact ND.
+    + apply SET. cbn [c_peer]. rewrite F. discriminate.
+  - destruct (0 <? strong s c); cbn [fst]; [|exact ND]. rewrite sub_opened_ctxs.
+    destruct (m && s_ka s); [rewrite peers_set_active|]; exact ND.
+  - destruct (pfind id (s_pend s)) as [[p c]|]; cbn [fst]; [|exact ND]. rewrite sub_opened_ctxs. st_simpl.
+    destruct (m && s_ka s); [rewrite peers_set_active|]; exact ND.
+  - (* EOpen *) unfold on_open. destruct (find_ctx p (s_ctxs s)) as [cx|] eqn:F; [|exact ND].
+    destruct (h_act (c_prim cx) || _); [|exact ND]. cbn [fst]. st_simpl.
+    destruct (s_ka s); st_simpl; rewrite ?activity_ctxs; st_simpl; [|exact ND].
+    apply SET. cbn [c_peer]. rewrite F. discriminate.
+  - dmatch; cbn [fst]; st_simpl; exact ND.
+  - dmatch; cbn [fst]; st_simpl; exact ND.
+  - dmatch; cbn [fst]; st_simpl; exact ND.
+  - dmatch; cbn [fst]; st_simpl; exact ND.
+  - (* EOpenFull *) unfold on_open_full. destruct (find_ctx p (s_ctxs s)) as [cx|] eqn:F; [|exact ND].
+    destruct (h_act (c_prim cx) || _); [|exact ND]. cbn [fst]. st_simpl.
+    destruct (s_ka s); st_simpl; rewrite ?activity_ctxs; st_simpl; [|exact ND].
+    apply SET. cbn [c_peer]. rewrite F. discriminate.
+Qed.
+
+Lemma step_peers s dt i : peers_nodup s -> peers_nodup (fst (step s dt i)).
+Proof.
+  intros ND. unfold step. set (s0 := with_now s (s_now s + dt)).
+  pose proof (handle_peers s0 i ND) as HP. destruct (handle_ev s0 i) as [s1 o1]. cbn [fst] in HP.
+  set (sm := match ka_activity_of s0 i with
+             | Some k => with_act s1 (kset k (s_now s1) (s_act s1)) | None => s1 end).
+  assert (PM : peers_nodup sm) by (subst sm; destruct (ka_activity_of s0 i); exact HP).
+  unfold poll_timers. destruct (fire (s_T sm) (s_now sm) (s_timers sm) (s_last sm)) as [[ts la] ex].
+  pose proof (peers_downgrade_all ex (s_ctxs sm)) as PD.
+  destruct (downgrade_all (s_ctxs sm) ex) as [cs os]. cbn [fst] in *. unfold peers_nodup. st_simpl.
+  rewrite PD. exact PM.
+Qed.
+
+(* with one context per peer and the view invariant, "some handle of the service for connection c
+   is Active" is the Active flag of c's own key *)
+Lemma find_ctx_in_nodup l : NoDup (map c_peer l) -> forall cx, In cx l -> find_ctx (c_peer cx) l = Some cx.
+Proof.
+  induction l as [|h t IH]; intros ND cx HIn; [destruct HIn|]. cbn [find_ctx map] in *.
+  inversion ND as [|x xs NI ND']; subst. destruct HIn as [->|HIn]; [rewrite N.eqb_refl; reflexivity|].
+  destruct (c_peer h =? c_peer cx) eqn:E; [|apply IH; assumption].
+  exfalso. apply N.eqb_eq in E. apply NI. rewrite E. apply in_map. exact HIn.
+Qed.
+Lemma cx_strong_act cx c : NoDup (ids_of cx) -> cx_strong cx c = cx_act cx c.
+Proof.
+  unfold cx_strong, cx_act, ids_of. intros ND. destruct (h_id (c_prim cx) =? c) eqn:E; cbn [andb orb].
+  - destruct (c_sec cx) as [h|]; [|apply orb_false_r].
+    destruct (h_id h =? c) eqn:E1; cbn [andb]; [|apply orb_false_r].
+    exfalso. apply N.eqb_eq in E, E1. inversion ND as [|x xs NI _]; subst. apply NI. left. congruence.
+  - destruct (c_sec cx) as [h|]; [|reflexivity]. destruct (h_id h =? c); reflexivity.
+Qed.
+Lemma active_strong l k : handle_active l k = true -> svc_strong l (snd k) = true.
+Proof.
+  unfold handle_active, svc_strong. destruct (find_ctx (fst k) l) as [cx|] eqn:F; [|discriminate].
+  intros H. apply existsb_exists. exists cx. split.
+  - clear H. induction l as [|h t IH]; cbn [find_ctx] in F; [discriminate|].
+    destruct (c_peer h =? fst k); [inversion F; left; reflexivity | right; apply IH; exact F].
+  - unfold cx_act in H. unfold cx_strong. destruct (h_id (c_prim cx) =? snd k); cbn [andb orb]; [rewrite H; reflexivity|].
+    destruct (c_sec cx) as [h|]; [|discriminate]. destruct (h_id h =? snd k); [cbn [andb]; exact H | discriminate].
+Qed.
+Lemma strong_active e s p c :
+  conn_inv e (s_ctxs s) (s_pend s) -> peers_nodup s -> In (p, c) (e_live e) ->
+  svc_strong (s_ctxs s) c = handle_active (s_ctxs s) (p, c).
+Proof.
+  intros [I1 [I2 _]] PN LV. destruct (handle_active (s_ctxs s) (p, c)) eqn:HA.
+  - apply (active_strong _ (p, c)). exact HA.
+  - destruct (svc_strong (s_ctxs s) c) eqn:SS; [|reflexivity]. exfalso.
+    unfold svc_strong in SS. apply existsb_exists in SS. destruct SS as [cx [HIn CS]].
+    pose proof (find_ctx_in_nodup _ PN cx HIn) as F.
+    assert (NDI : NoDup (ids_of cx)).
+    { pose proof (I1 (c_peer cx)) as Ip. unfold conn_ids in Ip. rewrite F in Ip. rewrite Ip. apply NoDup_live_of. exact I2. }
+    rewrite (cx_strong_act cx c NDI) in CS.
+    assert (LV2 : In (c_peer cx, c) (e_live e)).
+    { apply In_live_of. rewrite <- I1. unfold conn_ids. rewrite F. apply cx_act_in. exact CS. }
+    assert (c_peer cx = p).
+    { clear -I2 LV LV2. induction (e_live e) as [|h t IH]; [destruct LV|]. cbn [map] in I2.
+      inversion I2 as [|x xs NI ND]; subst. destruct LV as [->|LV], LV2 as [E|LV2].
+      - inversion E; reflexivity.
+      - exfalso. apply NI. cbn [snd]. change c with (snd (c_peer cx, c)). apply in_map. exact LV2.
+      - exfalso. apply NI. subst h. cbn [snd]. change c with (snd (p, c)). apply in_map. exact LV.
+      - apply IH; assumption. }
+    subst p. unfold handle_active in HA. cbn [fst snd] in HA. rewrite F in HA. congruence.
+Qed.
+
 (* ------------------------------------------------------------------ over histories *)
 Fixpoint efinal (e : env) (tr : list (N * ev)) : env :=
   match tr with [] => e | (_, i) :: t => efinal (env_step e i) t end.
@@ -343,13 +471,14 @@ Record exact_inv (e : env) (s : st) : Prop := mkExact {
   ex_fresh : fresh_inv s;
   ex_act : act_inv s;
   ex_trk : trk_act s;
-  ex_old : old_inv e s
+  ex_old : old_inv e s;
+  ex_peers : peers_nodup s
 }.
 
 Lemma exact_step e s dt i :
   exact_inv e s -> ev_ok 2 e s i = true -> exact_inv (env_step e i) (fst (step s dt i)).
 Proof.
-  intros [C T F A K O] OK. constructor.
+  intros [C T F A K O PN] OK. constructor.
   - exact (proj1 (step_conn e s dt i C OK)).
   - apply inv_t_step. exact T.
   - apply fresh_step. exact T.
@@ -357,6 +486,7 @@ Proof.
     pose proof (act_poll sm M) as P. destruct (poll_timers sm) as [s2 o2]. exact P.
   - apply (trk_act_step e); assumption.
   - apply old_step; assumption.
+  - apply step_peers. exact PN.
 Qed.
 
 Lemma exact_final tr : forall e s,
@@ -370,7 +500,7 @@ Qed.
 Lemma exact_init ka T n : exact_inv env0 (init ka T n).
 Proof.
   constructor; [exact conn_inv_init | apply inv_t_init | apply fresh_inv_init | apply act_inv_init
-               | apply trk_act_init | apply old_inv_init].
+               | apply trk_act_init | apply old_inv_init | constructor].
 Qed.
 
 (* in a state satisfying the invariants, for an open connection: Active <-> activity less than T ago *)
@@ -379,7 +509,7 @@ Lemma exact_active_iff e s k :
   exists t, kfind k (s_act s) = Some t /\ t <= s_now s /\
             (handle_active (s_ctxs s) k = true <-> s_now s < t + s_T s).
 Proof.
-  intros [C [T1 T2] F A K O] LV. destruct (kfind k (s_last s)) as [t|] eqn:L.
+  intros [C [T1 T2] F A K O _] LV. destruct (kfind k (s_last s)) as [t|] eqn:L.
   - destruct (T1 k t L) as [LE AC]. exists t. split; [exact AC|]. split; [exact LE|]. split.
     + intros _. exact (F k t L).
     + intros _. exact (K k t L).
@@ -406,7 +536,7 @@ Lemma view_final tr ka T n0 p :
   feasible 2 env0 (init ka T n0) tr = true ->
   conn_ids (s_ctxs (final (init ka T n0) tr)) p = live_of p (e_live (efinal env0 tr)).
 Proof.
-  intros F. pose proof (exact_final tr env0 (init ka T n0) (exact_init ka T n0) F) as [[I1 _] _ _ _ _ _]. apply I1.
+  intros F. pose proof (exact_final tr env0 (init ka T n0) (exact_init ka T n0) F) as [[I1 _] _ _ _ _ _ _]. apply I1.
 Qed.
 
 Lemma open_counts_for_primary e s p k :
@@ -448,3 +578,4 @@ Proof.
     apply key_eqb_eq in E. subst k0. exfalso. apply NK. reflexivity.
   - intros H. apply KEEP; [exact H | exact NC].
 Qed.
+
